@@ -201,6 +201,16 @@ class Ctx:
             except Exception:  # pragma: no cover
                 pass
 
+    def kill_workers(self):
+        """SIGKILL for every pool worker (a worker stuck in a blocking call or with signals blocked ignores terminate())."""
+        import signal as _signal
+
+        for p in list(getattr(self._pool, "_pool", None) or []):
+            try:
+                os.kill(p.pid, _signal.SIGKILL)
+            except Exception:  # pragma: no cover
+                pass
+
 
 # ---------------------------------------------------------------------------------------------
 
@@ -301,17 +311,33 @@ def main(argv=None):
     ctx = Ctx(prop, args.tier, seed, jobs)
     t0 = time.time()
 
+    # kill -USR1 <pid> prints the Python stack of a runner or worker process (inherited by the forked pool workers)
+    try:
+        import faulthandler
+        import signal as _sig
+
+        faulthandler.register(_sig.SIGUSR1, all_threads=True)
+    except Exception:  # pragma: no cover
+        pass
+
     # watchdog: a check that does not finish (a changed library can make an exploration blow up) is a failed check, not a hung one
     import threading
 
     limit = float(os.environ.get("VERIF_TIMEOUT", "0") or 0) or (1800.0 if args.tier == "quick" else 6 * 3600.0)
 
     def on_timeout():
-        path = write_replay(prop, "harness:timeout", {"count": 1, "cases": [{"case": None, "message": "no result after %.0f s" % limit}]}, args.tier, seed, "harness")
-        sys.stderr.write("[%s] harness:timeout after %.0f s\n" % (prop, limit))
-        print("VIOLATION property=%s replay=%s" % (prop, path))
-        sys.stdout.flush()
-        ctx.terminate()
+        # nothing in here may keep the process alive: a closed stdout, a pool that does not terminate, workers that ignore signals
+        try:
+            path = write_replay(prop, "harness:timeout", {"count": 1, "cases": [{"case": None, "message": "no result after %.0f s" % limit}]}, args.tier, seed, "harness")
+            sys.stderr.write("[%s] harness:timeout after %.0f s\n" % (prop, limit))
+            print("VIOLATION property=%s replay=%s" % (prop, path))
+            sys.stdout.flush()
+        except BaseException:  # noqa
+            pass
+        try:
+            ctx.kill_workers()
+        except BaseException:  # noqa
+            pass
         os._exit(1)
 
     watchdog = threading.Timer(limit, on_timeout)
